@@ -30,8 +30,8 @@ stub_property!(c06, C06, "C06");
 stub_property!(c07, C07, "C07");
 stub_property!(c08, C08, "C08");
 stub_property!(c09, C09, "C09");
-stub_property!(c10, C10, "C10");
-stub_property!(c11, C11, "C11");
+pub mod c10;
+pub mod c11;
 stub_property!(c12, C12, "C12");
 stub_property!(c13, C13, "C13");
 stub_property!(c14, C14, "C14");
